@@ -249,10 +249,13 @@ template <class D> inline std::unique_ptr<D> canonical(const D& x, int variant) 
   }
   else if constexpr (Dom<D>::kind == PROD) {
     // same components, each re-built eagerly; the product itself is not reduced here
-    std::unique_ptr<typename Dom<D>::d1_type> a = canonical<typename Dom<D>::d1_type>(c.d1, variant);
-    std::unique_ptr<typename Dom<D>::d2_type> b = canonical<typename Dom<D>::d2_type>(c.d2, variant + 1);
-    std::unique_ptr<D> t(new D(dim, PPL::UNIVERSE));
-    t->d1 = *a; t->d2 = *b; t->clear_reduced_flag();
+    // Same components, verbatim, but not (flagged as) reduced.  Re-building a component from its own
+    // minimized description is NOT done here: which constraints a reduction hands over depends on the
+    // syntactic form of the other component (documented: "the recipient domain selects a subset of
+    // these constraints"), so answers may legitimately differ between such twins.
+    (void) variant;
+    std::unique_ptr<D> t(new D(c));
+    t->clear_reduced_flag();
     return t;
   }
   else if constexpr (Dom<D>::kind == GRID) {
@@ -285,13 +288,75 @@ template <class D> inline std::unique_ptr<D> canonical(const D& x, int variant) 
   }
 }
 
+// ---- cost guard for geometrically_covers/equals on powersets of grids.
+// check_containment(yj, x) (Pointset_Powerset.cc) splits yj, for every disjunct xi that neither contains it nor is
+// disjoint from it, into the cosets of xi∩yj in yj (one grid per coset) and omega-reduces the pieces (quadratic);
+// the pieces multiply over the xi.  The number of cosets is a ratio of lattice determinants and reaches the
+// hundreds for grids obtained from coefficients <= 7 by a few images/time-elapses (the documentation warns
+// "This may be really expensive!"), so the call is skipped when the estimated number of pieces exceeds a budget.
+inline double grid_partition_pieces(const PPL::Grid& p, const PPL::Grid& q) {
+  if (p.contains(q) || p.is_disjoint_from(q)) return 0;
+  PPL::Grid gr(q); double pieces = 0;
+  Coefficient fn, fd, vn, vd, gn, gd;
+  const Congruence_System cgs = p.minimized_congruences();
+  for (Congruence_System::const_iterator i = cgs.begin(), e = cgs.end(); i != e; ++i) {
+    Linear_Expression le(i->expression());
+    if (!gr.frequency(le, fn, fd, vn, vd)) return pieces;            // a line of q crosses the congruence: q is kept whole
+    gr.add_congruence(*i);
+    if (gr.is_empty()) return pieces;
+    if (fn == 0) continue;                                            // constant on q: nothing to split
+    if (i->is_equality()) return pieces;                              // discrete direction cut by an equality: no finite partition
+    if (!gr.frequency(le, gn, gd, vn, vd)) return pieces;
+    mpq_class f(fn, fd), g(gn, gd); f.canonicalize(); g.canonicalize();
+    pieces += mpq_class(g / f).get_d() - 1;
+  }
+  return pieces;
+}
+template <class PS> inline double covers_cost(const PS& x, const PS& y) {   // x.geometrically_covers(y)
+  PS cx(x), cy(y); const PS& rx = cx; const PS& ry = cy; double worst = 0;
+  for (typename PS::const_iterator j = ry.begin(); j != ry.end(); ++j) {
+    double n = 1;
+    for (typename PS::const_iterator i = rx.begin(); i != rx.end(); ++i) n *= 1 + grid_partition_pieces(i->pointset(), j->pointset());
+    worst = std::max(worst, n);
+  }
+  return worst;
+}
+constexpr double PSET_GRID_BUDGET = 150;
+template <class D> inline bool geometric_compare_affordable(const D& a, const D& b) {
+  if constexpr (std::is_same<D, PPL::Pointset_Powerset<PPL::Grid> >::value) { FaultPause pause; return covers_cost(a, b) <= PSET_GRID_BUDGET && covers_cost(b, a) <= PSET_GRID_BUDGET; }
+  else return true;
+}
+
+// A copy that shares nothing with the original: powerset copies are copy-on-write at the level of
+// the disjuncts, so a "deep" copy re-adds a private copy of every disjunct.
+template <class D> inline std::unique_ptr<D> deep_copy(const D& x) {
+  if constexpr (Dom<D>::kind == PSET) {
+    typedef typename Dom<D>::base_type B;
+    std::unique_ptr<D> t(new D(x.space_dimension(), PPL::EMPTY));
+    for (typename D::const_iterator i = x.begin(), e = x.end(); i != e; ++i) { B d(i->pointset()); t->add_disjunct(d); }
+    return t;
+  }
+  else return std::unique_ptr<D>(new D(x));
+}
+
 template <class D> inline bool same_value(const D& a, const D& b) {
   FaultPause pause;
   if (a.space_dimension() != b.space_dimension()) return false;
   D x(a), y(b);
-  if constexpr (Dom<D>::kind == PSET) return x.geometrically_equals(y);
+  if constexpr (Dom<D>::kind == PSET) { if (!geometric_compare_affordable(x, y)) return true;   // too expensive: judged by the probe points only
+    return x.geometrically_equals(y); }
   else if constexpr (Dom<D>::kind == PROD) return true;   // products: judged by probe points only (component equality is not set equality)
   else return x == y;
+}
+
+// Soft time limit for powersets of grids: their partition-based operators have no useful complexity bound
+// (the number of pieces is a ratio of lattice determinants), so a run that exceeds the limit is abandoned and
+// counted (kit.soft_timeout) instead of being reported as a hang.  Async-signal-safe: write + _exit only.
+static int g_soft_fd = -1;
+static void soft_timeout_handler(int) {
+  static const char msg[] = "S\tkit.soft_timeout\t1\nH\t0\nD\t0\t0\t0\nE\n";
+  if (g_soft_fd >= 0) { ssize_t w = write(g_soft_fd, msg, sizeof msg - 1); (void) w; }
+  _exit(0);
 }
 
 // ---------------------------------------------------------------- the harness
@@ -337,6 +402,9 @@ template <class D> struct ObjHarness : Harness {
     long total = 0;
     for (auto* d : enabled) total += d->weight;
     int fault_pct = prop == "C14" ? 35 : 0;
+    // no fault branches on powersets of grids: their operators have no complexity bound, and a branch that
+    // runs into the wall-clock limit could not be told from a hang caused by the fault
+    if constexpr (Dom<D>::kind == PSET) { if (Dom<typename Dom<D>::base_type>::kind == GRID) fault_pct = 0; }
     static const char* fkinds[] = { "alloc", "alloc", "alloc", "allocs", "abandon", "abandon", "flag", "weight" };
     for (long i = 0; i < n; ++i) {
       Op op;
@@ -540,6 +608,7 @@ template <class D> struct ObjHarness : Harness {
     if (again != text) {
       size_t k = 0; while (k < again.size() && k < text.size() && again[k] == text[k]) ++k;
       R.ctx.violation("C15", "redump", klass(op), "re-dump differs from the original dump at byte " + std::to_string(k));
+      if (getenv("VERIF_TRACE")) std::cerr << "TRACE original dump\n" << text << "\nTRACE re-dump\n" << again << "\n";
       return;
     }
     Fp fy = fingerprint(*y, R.probes);
@@ -557,6 +626,7 @@ template <class D> struct ObjHarness : Harness {
     pid_t g = fork();
     if (g < 0) return false;
     if (g == 0) {
+      signal(SIGALRM, SIG_DFL); alarm(30);     // never leave an orphan behind
       R.ctx.reset_for_branch();
       body();
       R.ctx.flush(false);
@@ -621,7 +691,10 @@ template <class D> struct ObjHarness : Harness {
     std::vector<int> uniq;
     for (int s : slots) if (std::find(uniq.begin(), uniq.end(), s) == uniq.end()) uniq.push_back(s);
     std::map<int, std::unique_ptr<D> > good;
-    for (int s : uniq) good[s].reset(new D(*R.pool[(size_t) s]));
+    for (int s : uniq) good[s] = deep_copy(*R.pool[(size_t) s]);
+    // powersets: an ordinary (copy-on-write) copy taken before the call, to see whether the fault reaches it
+    std::map<int, std::unique_ptr<D> > cow;
+    if constexpr (Dom<D>::kind == PSET) for (int s : uniq) cow[s].reset(new D(*R.pool[(size_t) s]));
     std::map<int, std::string> bystander;
     for (int s = 0; s < pool; ++s) if (!good.count(s)) bystander[s] = bystander_sig(*R.pool[(size_t) s], R.probes);
     int round0 = fegetround();
@@ -673,6 +746,13 @@ template <class D> struct ObjHarness : Harness {
     for (auto& b : bystander)
       if (bystander_sig(*R.pool[(size_t) b.first], R.probes) != b.second)
         ctx.violation("C14", "bystander-changed", klass(op), "an object not involved in the failed call changed representation");
+    // 4b. a copy made BEFORE the call shares its disjuncts with the object that was hit
+    for (auto& c : cow) {
+      bool ok = c.second->OK();
+      if (!ok || fingerprint(*c.second, R.probes) != fingerprint(*good[c.first], R.probes))
+        ctx.violation("C14", "copy-damaged", klass(op, "shares-representation"), "a copy taken before the failed call was damaged by it (copy-on-write disjunct shared with the object that was hit); OK()=" + std::to_string((int) ok));
+    }
+    cow.clear();
     // 5./6. recovery of every involved object
     for (size_t i = 0; i < uniq.size(); ++i) {
       int s = uniq[i];
@@ -761,6 +841,9 @@ template <class D> struct ObjHarness : Harness {
   // ---------------- main loop
   void run(const Plan& plan, Ctx& ctx) override {
     Run R(plan, ctx);
+    if constexpr (Dom<D>::kind == PSET) {
+      if (Dom<typename Dom<D>::base_type>::kind == GRID) { g_soft_fd = ctx.out_fd; signal(SIGALRM, soft_timeout_handler); alarm(10); }
+    }
     R.dimk = (int) std::min(5L, std::max(0L, plan.knob("dim", 2)));
     R.W = (int) std::min(8L, std::max(1L, plan.knob("W", R.dimk + 2)));
     int pool = (int) std::min(6L, std::max(1L, plan.knob("pool", 2)));
@@ -890,7 +973,7 @@ template <class D> struct ObjHarness : Harness {
       ctx.log(ans);
       if (getenv("VERIF_TRACE")) std::cerr << "TRACE " << Plan::op_text(op) << " => " << ans << "\n" << dump_of(*R.pool[(size_t) slots[0]]) << "\n";   // ascii_dump is passive
       // ---- M-ok
-      for (int s : uniq) check_ok(R, op, *R.pool[(size_t) s], s == slots[0] ? "receiver" : "argument");
+      for (int s : uniq) check_ok(R, op, *R.pool[(size_t) s], s == slots[0] ? (pre[s].dim == 0 ? "receiver|zero-dim" : "receiver") : "argument");
       // ---- M-const
       for (size_t i = 0; i < slots.size(); ++i) {
         bool is_const = (i == 0) ? (d.flags & F_OBS) : !(d.flags & F_CONSUMES);
